@@ -237,3 +237,35 @@ def conditional_defs(fn: Fn, is_target: Callable[[ast.AST], bool]) -> List[Tuple
             else:
                 out.append((s, n.value, g))
     return out
+
+
+def assigned_expr(n: ast.AST) -> Optional[ast.AST]:
+    """The value a (front-end normalised) assignment gives its target: `x = e` -> e; `x += e` -> `x + e`."""
+    if isinstance(n, ast.Assign):
+        return n.value
+    if isinstance(n, ast.AugAssign):
+        import copy
+        left = copy.deepcopy(n.target)
+        left.ctx = ast.Load()
+        return ast.BinOp(left=left, op=n.op, right=n.value)
+    return None
+
+
+def assign_target(n: ast.AST) -> Optional[ast.AST]:
+    if isinstance(n, ast.Assign) and len(n.targets) == 1:
+        return n.targets[0]
+    if isinstance(n, ast.AugAssign):
+        return n.target
+    return None
+
+
+def names_stepped_by_one(fn: Fn) -> List[str]:
+    """counters: names (or cells) updated by `+= 1`"""
+    out: List[str] = []
+    for n in fn.direct_nodes():
+        if isinstance(n, ast.AugAssign) and isinstance(n.op, ast.Add) and isinstance(n.value, ast.Constant) and n.value.value == 1 \
+                and type(n.value.value) is int:
+            c = cell_name(n.target)
+            if c and c not in out:
+                out.append(c)
+    return out
